@@ -85,6 +85,8 @@ func Leaves() []NC {
 		NC{"LiteralValue{null}", func() schema.Constraint { return schema.LiteralValue{Value: cty.NullVal(cty.String)} }},
 		NC{"LiteralValue{unknown}", func() schema.Constraint { return schema.LiteralValue{Value: cty.UnknownVal(cty.String)} }},
 		NC{"LiteralValue{dynamic}", func() schema.Constraint { return schema.LiteralValue{Value: cty.DynamicVal} }},
+		NC{"LiteralValue{\"a${1}b$c\"}", func() schema.Constraint { return schema.LiteralValue{Value: cty.StringVal("a${1}b$c")} }},
+		NC{"LiteralValue{\"line1\\nline2\"}", func() schema.Constraint { return schema.LiteralValue{Value: cty.StringVal("line1\nline2\n")} }},
 		NC{"LiteralValue{[]}", func() schema.Constraint { return schema.LiteralValue{Value: cty.ListValEmpty(cty.String)} }},
 		NC{"LiteralValue{{}}", func() schema.Constraint { return schema.LiteralValue{Value: cty.EmptyObjectVal} }},
 		NC{"LiteralValue{emptytuple}", func() schema.Constraint { return schema.LiteralValue{Value: cty.EmptyTupleVal} }},
